@@ -102,6 +102,21 @@ def run(ctx):
                 i = int(np.argmax(np.abs(num[20:-20] - ana[20:-20]))) + 20
                 viol(f"{filt}/slope-vs-own-sigma/after-update", f"{filt}: after update(Mmin=6) on an object built with Mmin=12, slope {ana[i]:.6f} vs numerical derivative of the object's own ln sigma {num[i]:.6f} at m={mf3.m[i]:.3g}",
                      {"filter": filt, "sequence": "MassFunction(Mmin=12); dndm; update(Mmin=6); _dlnsdlnm vs gradient(ln sigma)"})
+        # ... for every filter, also when the new grid has the same number of bins as the old one: slope and sigma are those of a fresh object
+        for filt in ("TopHat", "Gaussian", "SharpK", "SharpKEllipsoid"):
+            kwf = dict(transfer_model="EH", lnk_min=-12.0, lnk_max=12.0, dlnk=0.05, Mmin=12.0, Mmax=15.0, dlog10m=0.05, filter_model=filt, hmf_model="SMT")
+            mf4 = MassFunction(**kwf)
+            mf4.dndm; mf4.n_eff
+            for chg in ({"Mmin": 12.5, "Mmax": 15.5}, {"Mmin": 9.0, "Mmax": 12.0}, {"z": 1.0}):
+                mf4.update(**chg)
+                kwf.update(chg)
+                fr4 = MassFunction(**kwf)
+                ncase += 1
+                if not (np.allclose(mf4._dlnsdlnm, fr4._dlnsdlnm, rtol=1e-10) and np.allclose(mf4.sigma, fr4.sigma, rtol=1e-10) and np.allclose(mf4.n_eff, fr4.n_eff, rtol=1e-10)):
+                    dev_ = float(np.max(np.abs(mf4._dlnsdlnm / fr4._dlnsdlnm - 1)))
+                    viol(f"{filt}/slope-after-grid-shift", f"{filt}: after update({chg}) (same number of mass bins) the slope differs from a fresh object's by up to {dev_:.3g}: it is no longer the slope of the sigma the object returns",
+                         {"filter": filt, "sequence": f"MassFunction(Mmin=12, Mmax=15, dlog10m=0.05, filter_model={filt!r}); dndm; update({chg})"})
+                    break
     out["coverage"] = {
         "evaluations": ncase, "distinct_nontrivial": ncase,
         "rule": "window derivatives on 1500 arguments per differentiable window plus 40 small arguments; slopes for random (transfer model, z, cosmology) x all four filters on fine grids (dlnk=0.02, dlog10m=0.01), interior masses; n_eff identity on fresh objects and after dndm / direct assignment sequences",
